@@ -208,6 +208,7 @@ def gen_history(rng, types, lane):
     dropped = set()
     life = {}          # (v, method) -> its mocker has a When (since its last Apply / Reset)
     canceled = {}      # handle-mode var -> number of re-mocks since its context was canceled (None: context live)
+    applied = set()    # (v, method) successfully mocked since the variable was last restored
     nops = 3 + rng.below(12)
 
     def observe_all():
@@ -258,14 +259,43 @@ def gen_history(rng, types, lane):
             else:
                 ops.append(f'{h}{kind}:{b}:{v}:{m}:{k}')
             life[(v, m)] = kind != 'ap'            # Apply drops the When (iface.go:94)
+            applied.add((v, m))
             if handle[v] and canceled.get(v) is not None:
                 canceled[v] += 1
             k += 1
             if rng.below(3) == 0:
                 observe_all()
+        elif r < 76 and cand and not kept:
+            # Cancel through ONE method's handle: restores the whole variable if that method is mocked, else a no-op;
+            # later lookups re-mock the same and the other methods
+            v = rng.choice(cand)
+            t, _, b = vars_[v]
+            srt = sorted_methods(t['decl'])
+            m = rng.choice(srt) if rng.below(10) else rng.choice(['Nope', ''])
+            if m in ('Nope', '') and m in dict(t['decl']):
+                m = ''
+            ops.append(f'cn:{b}:{v}:{m}')
+            if m in srt:
+                if (v, m) in applied:
+                    for key in [key for key in life if key[0] == v]:
+                        del life[key]
+                    applied.difference_update({key for key in applied if key[0] == v})
+                else:
+                    life.pop((v, m), None)
+            if rng.below(2) == 0:
+                observe_all()
+            for _ in range(rng.below(4)):           # reconfigure right away through new lookups
+                m2 = rng.choice(srt)
+                kind = rng.choice(['ap', 'rt'] if not life.get((v, m2)) else ['ap'])
+                ops.append(f'{kind}:{b}:{v}:{m2}:{k}')
+                life[(v, m2)] = kind != 'ap'
+                applied.add((v, m2))
+                k += 1
+            observe_all()
         elif r < 82 and alive:
             b = rng.choice(alive)
             ops.append(f'rs:{b}')
+            applied.difference_update({key for key in applied if vars_[key[0]][2] == b})
             for key in [key for key in life if vars_[key[0]][2] == b]:
                 del life[key]
             for v, (_, _, ow) in enumerate(vars_):
@@ -378,6 +408,18 @@ def spec_expect(line):
                 mocked[v][m] = (o, k, int(f[5]) if o == 'wn' else None)
                 active[v] = True
                 owner[v] = b
+                exp.append((f, 'ok'))
+        elif o == 'cn':
+            v, m = int(f[2]), f[3]
+            decl = dict(decls[vars_[v][0]])
+            if m == '':
+                exp.append((f, 'panic:method-is-empty'))
+            elif m not in decl:
+                exp.append((f, 'panic:nomethod'))
+            else:
+                if active[v] and m in mocked[v]:       # the context is shared: the whole variable is restored
+                    mocked[v], active[v] = {}, False
+                    owner.pop(v, None)
                 exp.append((f, 'ok'))
         elif o == 'rs':
             b = int(f[1])
@@ -574,6 +616,9 @@ CORPUS = [  # minimised past failures (F11, F9) and hand-written shapes, always 
     # rejected Apply (signature does not fit) then Reset, with a correctly mocked second variable
     'c07.hist T:9000:M/0,JOT/0,Ek1/1 V:9000:0 V:9000:7 apx:0:0:M:0 wd:0 ap:0:1:JOT:1 rtx:0:0:Ek1:2 ca:0 ca:1 rs:0 wd:0 wd:1 ca:1',
     'c07.hist T:9000:M/0,JOT/0,Ek1/1 V:9000:3 apx:0:0:JOT:0 rs:0 wd:0 ca:0',
+    # Cancel through one method's handle (restores the whole variable), then fresh lookups re-mock the other and the same method
+    'c07.hist T:9000:M/0,JOT/0,Ek1/1 V:9000:4 ap:0:0:M:0 rt:0:0:JOT:1 ca:0 cn:0:0:M wd:0 ca:0 rt:0:0:JOT:2 ap:0:0:M:3 ca:0 ap:0:0:JOT:4 ca:0 rs:0 wd:0',
+    'c07.hist T:9000:M/0,JOT/0,Ek1/1 V:9000:0 V:9000:0 ap:0:0:M:0 ap:0:0:JOT:1 ap:0:1:M:2 cn:0:0:Ek1 ca:0 cn:0:0:JOT ca:0 ca:1 ap:0:0:Ek1:3 ap:0:0:M:4 ca:0 ca:1',
     # exported non-ASCII names sort before unexported ASCII ones although byte-wise greater
     'c07.hist T:9002:ab/0,Ωmega/0,zz/1,Ärger/0,αβ/0,ñ/1,Éa/2 V:9002:0 V:9002:2 od:9002 ap:0:0:ab:0 ca:0 rt:0:0:zz:1 wn:0:0:ñ:2:13 ap:0:0:Ωmega:3 ca:0 ca:1 rs:0 wd:0 ap:0:1:αβ:4 ca:1',
 ]
@@ -721,7 +766,10 @@ def shrink(binary, line, hint):
         return 'c07.hist ' + ' '.join(head + res)
 
     def fails(cand):
-        impl, _, _ = run_impl(binary, [cand], tag='c07-shrink', chunk=1)
+        impl, path, _ = run_impl(binary, [cand], tag='c07-shrink', chunk=1)
+        model, _ = run_model(path, tag='c07-shrink')
+        if not model or model[0] in ('unmodelled', 'bad-op'):      # stay inside the modelled fragment of histories
+            return False
         r = oracle(cand, impl[0])
         return r is not None and r[1] == hint
 
